@@ -274,7 +274,7 @@ Proof.
     + intros Hgd. apply mask_local; [exact Hs|apply wf_placed, good_placed; exact Hgd].
     + intros Hb. destruct (Href Hb) as [code E]. unfold model_mask. rewrite E. reflexivity.
   - (* merged *) destruct Hop as [Hsorted Hd]. rewrite Hsorted. destruct (Z.leb_spec 0 d); [|lia]. cbn [andb].
-    assert (Hgoodcase : forall m, (m = model_merged (szs c) (ctx_us (k_filter c) (k_genome c)) d (ves c) \/ m = model_geo_merge (szs c) d (ves c)) ->
+    assert (Hgoodcase : forall m, (m = model_merged (szs c) (ctx_us (gx_keep (fctx c)) (gx_dict (fctx c))) d (ves c) \/ m = model_geo_merge (szs c) d (ves c)) ->
               forallb (entry_good (szs c)) (ves c) = true -> m = RIvs (map triple (spec_merged (szs c) d (ves c)))).
     { intros m Hm Hgd. destruct Hm as [-> | ->];
         [apply merged_local|apply geo_merge_local]; try assumption; try (apply good_placed; exact Hgd);
